@@ -1,30 +1,738 @@
-"""Opaque decoded-CBOR values (the `Plain` sum). Filled in for C17/C03; minimal until then."""
+"""Lazily refined values: the `Plain` sum of decoded CBOR (DESIGN.md 2.3), JSON-shaped values, symbolic-length
+containers and abstract model instances.
+
+A `VPlain` stands for an ARBITRARY value of a set of kinds; the set is narrowed only when the executed code inspects
+the value (`isinstance`, `is None`, `hasattr`, `==` against a typed operand split it two ways; any other operation forces
+one kind per path).  Containers of symbolic size (`VPList`, `VPMap`) hand out their elements lazily; iterating them is
+only possible through the loop rule of the executor (invariant-based, interp.symbolic_for) — never by unrolling.
+Everything here over-approximates: a value may be anything its kind set allows, so an exception that can escape for some
+decoded input escapes on some explored path.
+"""
 from __future__ import annotations
-from .values import OutOfSubset
+import ast
+import z3
+
+from .values import V, VNone, NONE, VInt, VBool, VBytes, VStr, VFloat, VList, VTuple, VSeq, VDict, DEntry, VObj, \
+    VClass, VEnum, VFunc, VBuiltin, VTag, VOpaque, VExc, VLib, PyRaise, OutOfSubset, mk, conc_key
+
+KINDS = ("int", "bool", "bytes", "str", "none", "float", "list", "tuple", "dict", "frozendict", "tag", "other")
+TOP_KINDS = tuple(k for k in KINDS if k not in ("tuple", "frozendict"))  # top level and inside mutable containers
+TAG_KINDS = tuple(k for k in KINDS if k not in ("list", "dict"))  # cbor2 6: containers under a tag / as map keys are immutable
+JSON_KINDS = ("int", "bool", "str", "none", "float", "list", "dict")
+MAXLEN = 2 ** 63
 
 
 def _oos(what):
     raise OutOfSubset(f"opaque value: {what}")
 
 
-def binop(it, op, a, b): _oos("binop")
-def eq(it, a, b): _oos("eq")
-def is_none(it, a): _oos("is None")
-def order(it, op, a, b): _oos("order")
-def in_dict(it, d, item): _oos("in dict")
-def contains(it, c, item): _oos("contains")
-def getitem(it, obj, key): _oos("getitem")
-def getslice(it, obj, lo, hi): _oos("slice")
-def setitem(it, obj, key, val): _oos("setitem")
-def getattr_(it, obj, name): _oos(f"attribute {name}")
-def iterate(it, v, unpack): _oos("iterate")
-def isinstance_(it, v, T): _oos("isinstance")
-def len_(it, v): _oos("len")
-def to_int(it, v, base): _oos("int()")
-def to_dict(it, v): _oos("dict()")
-def hasattr_(it, v, name): _oos("hasattr")
-def dict_update(it, d, src): _oos("dict.update")
-def enc(it, v): _oos("enc")
-def loads(it, data): _oos("cbor2.loads of bytes with no known origin")
-def fresh(it, name): _oos("fresh")
-def concretize(model, v): return "<opaque>"
+class Lazy(VOpaque):
+    """Marker base of the values defined here."""
+
+
+class VPlain(Lazy):
+    def __init__(self, name, kinds=TOP_KINDS, domain="cbor"):
+        self.e = None
+        self.kind = "plain"
+        self.name = name
+        self.kinds = tuple(kinds)
+        self.kinds0 = tuple(kinds)
+        self.domain = domain  # 'cbor' | 'json'
+        self.val = None
+
+    def __repr__(self):
+        return f"Plain<{self.name}:{'|'.join(self.kinds)}>" if self.val is None else f"Plain={self.val!r}"
+
+
+class VAbs(Lazy):
+    """A scalar-like value with no modelled content: 'float' or 'other' (datetime, Fraction, set, UUID, simple value ...)."""
+
+    def __init__(self, kind, name):
+        self.e = None
+        self.kind = kind
+        self.name = name
+
+    def __repr__(self):
+        return f"Abs<{self.kind}:{self.name}>"
+
+
+class VPList(Lazy):
+    """list / tuple of symbolic length; elements are produced on demand by elem_fn(it, hint) and cached per index term."""
+
+    def __init__(self, it, name, elem_fn, is_tuple=False, shape=None, n=None):
+        self.e = None
+        self.kind = "plist"
+        self.name = name
+        self.elem_fn = elem_fn
+        self.is_tuple = is_tuple
+        self.shape = shape  # element shape (types.T) when the list is an abstraction of a model list
+        self.n = n if n is not None else it.fresh_int(f"len_{name}", 0, MAXLEN)
+        self.cache = {}
+
+    def elem(self, it, idx: VInt):
+        k = idx.conc if idx.conc is not None else idx.e.sexpr()
+        if k not in self.cache:
+            self.cache[k] = self.elem_fn(it, f"{self.name}[{k if isinstance(k, int) else '?'}]")
+        return self.cache[k]
+
+    def __repr__(self):
+        return f"PList<{self.name}{' tuple' if self.is_tuple else ''}>"
+
+
+class VPMap(Lazy):
+    """dict / frozendict of symbolic size: key_fn(it, hint) gives an arbitrary key, val_fn(it, key, hint) the value under it."""
+
+    def __init__(self, it, name, key_fn, val_fn, frozen=False, shape=None):
+        self.e = None
+        self.kind = "pmap"
+        self.name = name
+        self.key_fn, self.val_fn = key_fn, val_fn
+        self.frozen = frozen
+        self.shape = shape  # (key-shape, value-shape-fn) tag when the map abstracts a model dict
+        self.n = it.fresh_int(f"size_{name}", 0, MAXLEN)
+        self.cache = {}
+
+    def present(self, it, key):
+        """z3 Bool: is `key` in the mapping?  The same answer for the same key on one path."""
+        k = _key_id(key)
+        if k is None:
+            return it.fresh_bool(f"in_{self.name}").e
+        self.presence = getattr(self, "presence", {})
+        if k not in self.presence:
+            self.presence[k] = it.fresh_bool(f"in_{self.name}").e
+        return self.presence[k]
+
+    def value_at(self, it, key):
+        k = _key_id(key)
+        if k is None or k not in self.cache:
+            v = self.val_fn(it, key, f"{self.name}[..]")
+            if k is None:
+                return v
+            self.cache[k] = v
+        return self.cache[k]
+
+    def __repr__(self):
+        return f"PMap<{self.name}{' frozen' if self.frozen else ''}>"
+
+
+class VPIter(Lazy):
+    """dict view of a VPMap: .items() / .keys() / .values()."""
+
+    def __init__(self, m, what):
+        self.e = None
+        self.kind = "piter"
+        self.m = m
+        self.what = what
+
+
+def _key_id(key):
+    if isinstance(key, (VInt, VStr, VBytes, VBool)):
+        return ("s", type(key).__name__, key.conc if key.conc is not None else key.e.sexpr())
+    if isinstance(key, (VClass, VEnum, VObj)):
+        return ("o", id(key) if not isinstance(key, VClass) else (id(key.info), id(key.py)))
+    if isinstance(key, VNone):
+        return ("n",)
+    return None
+
+
+# ------------------------------------------------------------------------------------------------ construction
+def fresh(it, name, kinds=TOP_KINDS, domain="cbor"):
+    return VPlain(name, kinds, domain)
+
+
+def fresh_json(it, name):
+    return VPlain(name, JSON_KINDS, "json")
+
+
+def _child_kinds(parent_kind, domain):
+    if domain == "json":
+        return JSON_KINDS
+    return TOP_KINDS if parent_kind in ("list", "dict") else TAG_KINDS
+
+
+def make_kind(it, v: VPlain, k: str) -> V:
+    n, dom = v.name, v.domain
+    if k == "int":
+        return it.fresh_int(n)
+    if k == "bool":
+        return it.fresh_bool(n)
+    if k == "bytes":
+        b = it.fresh_bytes(n)
+        it.assume(z3.Length(b.e) < MAXLEN)
+        return b
+    if k == "str":
+        s = it.fresh_str(n)
+        it.assume(z3.Length(s.e) < MAXLEN)
+        return s
+    if k == "none":
+        return NONE
+    if k in ("float", "other"):
+        a = VAbs(k, n)
+        if k == "float":
+            # enough of a float to compare it consistently with integers: f == k  <=>  f is integral and its integer value is k
+            a.integral = it.fresh_bool(f"{n}_integral").e
+            a.ival = it.fresh_int(f"{n}_ival").e
+        return a
+    if k in ("list", "tuple"):
+        ck = _child_kinds(k, dom)
+        r = VPList(it, n, lambda it_, hint: VPlain(hint, ck, dom), is_tuple=(k == "tuple"))
+        r.child_kinds, r.domain = ck, dom
+        return r
+    if k in ("dict", "frozendict"):
+        ck = _child_kinds(k, dom)
+        kk = ("str",) if dom == "json" else tuple(x for x in TAG_KINDS)
+        return VPMap(it, n, lambda it_, hint: VPlain(hint, kk, dom), lambda it_, key, hint: VPlain(hint, ck, dom), frozen=(k == "frozendict"))
+    if k == "tag":
+        t = it.fresh_int(f"{n}.tag", 0, 2 ** 64 - 1)
+        return VTag(t, VPlain(f"{n}.value", TAG_KINDS, dom))
+    raise OutOfSubset(f"plain kind {k}")
+
+
+def split(it, v: VPlain, subset) -> bool:
+    """Is v's kind in `subset`?  Narrows v; forks only if both answers are possible."""
+    if v.val is not None:
+        return v.kinds[0] in subset
+    inn = tuple(k for k in v.kinds if k in subset)
+    out = tuple(k for k in v.kinds if k not in subset)
+    if not out:
+        return True
+    if not inn:
+        return False
+    b = z3.Bool(it.fresh_name(f"{v.name}_in_{'_'.join(inn)[:24]}"))
+    if it.branch(b):
+        v.kinds = inn
+        return True
+    v.kinds = out
+    return False
+
+
+def force(it, v: VPlain) -> V:
+    if v.val is None:
+        k = v.kinds[it.choose(len(v.kinds), f"{v.name}_kind")] if len(v.kinds) > 1 else v.kinds[0]
+        v.kinds = (k,)
+        v.val = make_kind(it, v, k)
+    return v.val
+
+
+def resolve(it, v):
+    """A definite-kind value for v (forces a VPlain; everything else is returned unchanged)."""
+    while isinstance(v, VPlain):
+        v = force(it, v)
+    return v
+
+
+def resolve_key(it, k):
+    return k
+
+
+def singleton_map(it, key, val):
+    """{key: val} with a lazy key."""
+    key = _hashable(it, key)
+    m = VPMap(it, it.fresh_name("singleton"), lambda it_, hint: key, lambda it_, k, hint: val)
+    it.assume(m.n.e == 1)
+    return m
+
+
+def _is_lazy(v):
+    return isinstance(v, Lazy)
+
+
+_ISINSTANCE_KINDS = {"int": ("int", "bool"), "bool": ("bool",), "str": ("str",), "bytes": ("bytes",), "float": ("float",),
+                     "dict": ("dict",), "list": ("list",), "tuple": ("tuple",), "CBORTag": ("tag",), "Mapping": ("dict", "frozendict"),
+                     "bytearray": (), "NoneType": ("none",)}
+
+
+# ------------------------------------------------------------------------------------------------ hooks
+def isinstance_(it, v, T):
+    from . import stubs_lib
+    if isinstance(v, VPlain):
+        if v.val is not None:
+            return stubs_lib.isinstance_(it, v.val, T)
+        if isinstance(T, VBuiltin):
+            n = T.name.split(".")[-1]
+            if n == "object":
+                return True
+            if n not in _ISINSTANCE_KINDS:
+                raise OutOfSubset(f"isinstance of a decoded value against {T.name}")
+            return split(it, v, _ISINSTANCE_KINDS[n])
+        if isinstance(T, VClass):
+            if T.py is dict:
+                return split(it, v, ("dict",))
+            return False  # a decoded CBOR value is never an instance of a repository class / exception class
+        raise OutOfSubset(f"isinstance against {T!r}")
+    n = T.name.split(".")[-1] if isinstance(T, VBuiltin) else (T.py.__name__ if isinstance(T, VClass) and T.py is not None else None)
+    if n == "object":
+        return True
+    if isinstance(v, VPList):
+        return n == ("tuple" if v.is_tuple else "list")
+    if isinstance(v, VPMap):
+        return (n == "dict" and not v.frozen) or n == "Mapping"
+    if isinstance(v, VAbs):
+        return n == "float" and v.kind == "float"
+    if isinstance(v, VPIter):
+        return False
+    _oos("isinstance")
+
+
+def is_none(it, a):
+    if isinstance(a, VPlain):
+        if a.val is not None:
+            return isinstance(a.val, VNone)
+        return split(it, a, ("none",))
+    if isinstance(a, Lazy):
+        return False
+    _oos("is None")
+
+
+def hasattr_(it, v, name):
+    if isinstance(v, VPlain) and v.val is None and name in ("tag",):
+        return split(it, v, ("tag",))
+    v = resolve(it, v)
+    if isinstance(v, Lazy):
+        if isinstance(v, VPMap):
+            return name in ("items", "keys", "values", "get")
+        return False
+    try:
+        it.getattr_(v, name)
+        return True
+    except PyRaise as e:
+        if issubclass(e.exc.cls, AttributeError):
+            return False
+        raise
+
+
+_EQ_COMPAT = [(VBool, ("int", "bool", "float")), (VInt, ("int", "bool", "float")), (VStr, ("str",)), (VBytes, ("bytes",)), (VNone, ("none",)),
+              (VTuple, ("tuple",)), (VList, ("list",)), (VDict, ("dict", "frozendict"))]
+
+
+def _eq_v(it, a, b):
+    """a == b as a VBool (never raises)."""
+    from . import stubs
+    for x, y in ((a, b), (b, a)):
+        if isinstance(x, VPlain) and x.val is None and not isinstance(y, Lazy):
+            compat = None
+            for t, ks in _EQ_COMPAT:
+                if isinstance(y, t):
+                    compat = ks
+                    break
+            if compat is None:
+                return VBool(False)  # classes, objects, enum members ... never equal a decoded value
+            if not split(it, x, compat):
+                return VBool(False)
+    a2, b2 = resolve(it, a), resolve(it, b)
+    if isinstance(a2, Lazy) or isinstance(b2, Lazy):
+        if a2 is b2:
+            return VBool(True)
+        for x, y in ((a2, b2), (b2, a2)):
+            if isinstance(x, VAbs) and x.kind == "float" and isinstance(y, (VInt, VBool)) and hasattr(x, "ival"):
+                return VBool(z3.And(x.integral, x.ival == it.to_int(y).e))
+            if isinstance(x, VAbs) and x.kind == "float" and isinstance(y, (VInt, VBool, VAbs)):
+                return it.fresh_bool("float_eq")
+            if isinstance(x, VAbs) and x.kind == "other" and isinstance(y, Lazy):
+                return it.fresh_bool("other_eq")
+            if isinstance(x, VPList) and isinstance(y, (VPList, VList, VTuple)):
+                return it.fresh_bool("seq_eq")
+            if isinstance(x, VPMap) and isinstance(y, (VPMap, VDict)):
+                return it.fresh_bool("map_eq")
+        return VBool(False)
+    return stubs.compare(it, ast.Eq(), a2, b2)
+
+
+def _raw(x):
+    """VBool / bool / z3 Bool -> bool or z3 Bool (what the comparison code of stubs.py expects from these hooks)."""
+    if isinstance(x, VBool):
+        return x.conc if x.conc is not None else x.e
+    return x
+
+
+def eq(it, a, b):
+    return _raw(_eq_v(it, a, b))
+
+
+def in_dict(it, d, item):
+    return _raw(_in_dict_v(it, d, item))
+
+
+def contains(it, c, item):
+    return _raw(_contains_v(it, c, item))
+
+
+def order(it, op, a, b):
+    from . import stubs
+    a2, b2 = resolve(it, a), resolve(it, b)
+    if not (isinstance(a2, Lazy) or isinstance(b2, Lazy)):
+        return stubs.compare(it, op, a2, b2)
+    for x, y in ((a2, b2), (b2, a2)):
+        if isinstance(x, VAbs) and x.kind == "float" and isinstance(y, (VInt, VBool, VAbs)) and not (isinstance(y, VAbs) and y.kind != "float"):
+            return it.fresh_bool("float_cmp")
+    it.raise_(TypeError, "'<' not supported between instances")
+
+
+def binop(it, op, a, b):
+    from . import stubs
+    a2, b2 = resolve(it, a), resolve(it, b)
+    if not (isinstance(a2, Lazy) or isinstance(b2, Lazy)):
+        r = stubs.binop(it, op, a2, b2)
+        if r is None:
+            # operand kinds python rejects (e.g. str & int, None + 1): TypeError
+            kinds = (VInt, VBool, VBytes, VStr, VNone, VTag, VList, VTuple, VDict)
+            if isinstance(a2, kinds) and isinstance(b2, kinds):
+                it.raise_(TypeError, f"unsupported operand type(s) for {type(op).__name__}")
+        return r
+    bitwise = isinstance(op, (ast.BitAnd, ast.BitOr, ast.BitXor, ast.LShift, ast.RShift))
+    for x, y in ((a2, b2), (b2, a2)):
+        if isinstance(x, VAbs) and x.kind == "float":
+            if bitwise or not isinstance(y, (VInt, VBool, VAbs)):
+                it.raise_(TypeError, "unsupported operand type(s)")
+            if isinstance(op, (ast.Div, ast.FloorDiv, ast.Mod)):
+                if it.branch(it.fresh_bool("float_zero_div").e):
+                    it.raise_(ZeroDivisionError, "float division by zero")
+            return VAbs("float", "float_arith")
+    if bitwise and all(isinstance(x, (VInt, VBool, VStr, VBytes, VNone, VTag, VPList, VPMap, VAbs)) for x in (a2, b2)):
+        # python: bitwise operators are defined on int/bool pairs only (set-like 'other' values: set & int is a TypeError too)
+        it.raise_(TypeError, "unsupported operand type(s) for bitwise operator")
+    raise OutOfSubset(f"binary {type(op).__name__} on {a2!r}, {b2!r}")
+
+
+def truth(it, v):
+    v = resolve(it, v)
+    if isinstance(v, (VPList, VPMap)):
+        return v.n.e > 0
+    if isinstance(v, VAbs):
+        return it.fresh_bool(f"truth_{v.name}").e
+    if isinstance(v, VPIter):
+        return v.m.n.e > 0
+    if isinstance(v, Lazy):
+        _oos("truth")
+    return it.truth(v)
+
+
+def _hashable(it, key):
+    if isinstance(key, VPlain) and key.val is None:
+        if split(it, key, ("list", "dict")):
+            it.raise_(TypeError, "unhashable type")
+        return key
+    key = resolve(it, key)
+    if isinstance(key, (VPList,)) and not key.is_tuple:
+        it.raise_(TypeError, "unhashable type: 'list'")
+    if isinstance(key, VPMap) and not key.frozen:
+        it.raise_(TypeError, "unhashable type: 'dict'")
+    if isinstance(key, (VList, VDict)) and not getattr(key, "frozen", False):
+        it.raise_(TypeError, "unhashable type")
+    return key
+
+
+def _in_dict_v(it, d, item):
+    """item in <concrete VDict> for a lazy item."""
+    from . import stubs
+    item = _hashable(it, item)
+    if isinstance(item, Lazy):
+        if isinstance(item, VAbs) and item.kind == "float":
+            return it.fresh_bool("float_in_dict")
+        return VBool(False) if not isinstance(item, VAbs) else it.fresh_bool("in_dict")
+    return stubs.contains(it, d, item)
+
+
+def _contains_v(it, c, item):
+    from . import stubs
+    c = resolve(it, c)
+    if isinstance(c, VPMap):
+        item = _hashable(it, item)
+        return VBool(c.present(it, item))
+    if isinstance(c, VPList):
+        return it.fresh_bool(f"in_{c.name}")
+    if isinstance(c, VPIter):
+        return it.fresh_bool(f"in_{c.m.name}")
+    if isinstance(c, VAbs):
+        if c.kind == "float":
+            it.raise_(TypeError, "argument of type 'float' is not iterable")
+        if it.branch(it.fresh_bool("other_not_container").e):
+            it.raise_(TypeError, "argument is not iterable")
+        return it.fresh_bool("in_other")
+    if isinstance(c, Lazy):
+        _oos("contains")
+    item2 = resolve(it, item)
+    if isinstance(item2, Lazy):
+        if isinstance(c, (VStr, VBytes)):
+            it.raise_(TypeError, "'in <string>' requires string as left operand")
+        if isinstance(c, VDict):
+            return _in_dict_v(it, c, item2)
+        if isinstance(c, (VList, VTuple)):
+            if not c.items:
+                return VBool(False)
+            return it.fresh_bool("in_list")
+        _oos("contains")
+    return stubs.contains(it, c, item2)
+
+
+def dict_getitem(it, d, key):
+    """<concrete VDict>[lazy key]."""
+    from . import stubs
+    key = _hashable(it, key)
+    if isinstance(key, Lazy):
+        it.raise_(KeyError, "key")
+    return stubs.getitem(it, d, key)
+
+
+def _index(it, seq: VPList, key):
+    key = resolve(it, key)
+    if isinstance(key, VBool):
+        key = it.to_int(key)
+    if not isinstance(key, VInt):
+        it.raise_(TypeError, "list indices must be integers or slices")
+    i = key
+    if i.conc is None or i.conc < 0:
+        neg = (i.e < 0) if i.conc is None else True
+        if it.branch(neg):
+            i = VInt(i.e + seq.n.e)
+    if not it.branch(z3.And(i.e >= 0, i.e < seq.n.e)):
+        it.raise_(IndexError, "list index out of range")
+    return seq.elem(it, i)
+
+
+def getitem(it, obj, key):
+    from . import stubs
+    obj = resolve(it, obj)
+    if isinstance(obj, VPList):
+        return _index(it, obj, key)
+    if isinstance(obj, VPMap):
+        key = _hashable(it, key)
+        if not it.branch(obj.present(it, key)):
+            it.raise_(KeyError, "key")
+        return obj.value_at(it, key)
+    if isinstance(obj, (VAbs, VPIter)):
+        it.raise_(TypeError, "object is not subscriptable")
+    if isinstance(obj, Lazy):
+        _oos("getitem")
+    key2 = resolve(it, key)
+    if isinstance(key2, Lazy):
+        if isinstance(obj, VDict):
+            return dict_getitem(it, obj, key2)
+        it.raise_(TypeError, "indices must be integers or slices")
+    if isinstance(obj, (VNone, VInt, VBool)):
+        it.raise_(TypeError, "object is not subscriptable")
+    if isinstance(obj, VTag):
+        it.raise_(TypeError, "'CBORTag' object is not subscriptable")
+    return stubs.getitem(it, obj, key2)
+
+
+def getslice(it, obj, lo, hi):
+    from . import stubs
+    obj = resolve(it, obj)
+    lo = resolve(it, lo) if lo is not None else None
+    hi = resolve(it, hi) if hi is not None else None
+    for b in (lo, hi):
+        if b is not None and not isinstance(b, (VInt, VBool, VNone)):
+            it.raise_(TypeError, "slice indices must be integers or None")
+    if isinstance(obj, VPList):
+        m = it.fresh_int(f"len_slice_{obj.name}", 0, MAXLEN)
+        it.assume(m.e <= obj.n.e)
+        if isinstance(lo, VInt) and isinstance(hi, VInt):
+            it.assume(z3.Implies(z3.And(lo.e >= 0, hi.e >= lo.e), m.e <= hi.e - lo.e))
+            # a slice that starts inside the list and has positive width is non-empty
+            it.assume(z3.Implies(z3.And(lo.e >= 0, lo.e < obj.n.e, hi.e > lo.e), m.e >= 1))
+        r = VPList(it, obj.name + "[:]", obj.elem_fn, is_tuple=obj.is_tuple, shape=obj.shape, n=m)
+        for a in ("child_kinds", "domain"):
+            if hasattr(obj, a):
+                setattr(r, a, getattr(obj, a))
+        return r
+    if isinstance(obj, (VAbs, VPMap, VPIter)):
+        it.raise_(TypeError, "object is not subscriptable")
+    if isinstance(obj, Lazy):
+        _oos("slice")
+    if isinstance(obj, (VNone, VInt, VBool, VTag)):
+        it.raise_(TypeError, "object is not subscriptable")
+    return stubs.getslice(it, obj, lo, hi, None)
+
+
+def setitem(it, obj, key, val):
+    from . import stubs
+    obj = resolve(it, obj)
+    if isinstance(obj, VPMap):
+        if obj.frozen:
+            it.raise_(TypeError, "'frozendict' object does not support item assignment")
+        key = _hashable(it, key)
+        if obj.shape is not None:
+            from . import shapes
+            shapes.check_store(it, obj, key, val)
+        k = _key_id(key)
+        if k is not None:
+            obj.cache[k] = val
+            obj.presence = getattr(obj, "presence", {})
+            obj.presence[k] = z3.BoolVal(True)
+        return
+    if isinstance(obj, VPList):
+        if obj.is_tuple:
+            it.raise_(TypeError, "'tuple' object does not support item assignment")
+        _index(it, obj, key)
+        return
+    if isinstance(obj, Lazy):
+        it.raise_(TypeError, "object does not support item assignment")
+    return stubs.setitem(it, obj, _hashable(it, key) if isinstance(obj, VDict) else resolve(it, key), val)
+
+
+def getattr_(it, obj, name):
+    if isinstance(obj, VPlain) and obj.val is None and name in ("tag",):
+        if not split(it, obj, ("tag",)):
+            it.raise_(AttributeError, f"object has no attribute '{name}'")
+    obj = resolve(it, obj)
+    if isinstance(obj, VPMap):
+        if name in ("items", "keys", "values", "get", "copy"):
+            return VBuiltin(f"pmap.{name}", self_obj=obj)
+        if name in ("pop", "update", "setdefault", "clear", "popitem") and not obj.frozen:
+            return VBuiltin(f"pmap.{name}", self_obj=obj)
+        it.raise_(AttributeError, f"mapping has no attribute '{name}'")
+    if isinstance(obj, VPList):
+        if name in ("append", "extend", "insert", "pop", "remove", "sort", "reverse", "clear") and obj.is_tuple:
+            it.raise_(AttributeError, f"'tuple' object has no attribute '{name}'")
+        if name in ("append", "extend", "index", "count", "pop", "copy"):
+            return VBuiltin(f"plist.{name}", self_obj=obj)
+        it.raise_(AttributeError, f"sequence has no attribute '{name}'")
+    if isinstance(obj, VAbs):
+        if obj.kind == "float" and name in ("hex", "is_integer", "real", "imag", "conjugate", "as_integer_ratio"):
+            raise OutOfSubset(f"float.{name}")
+        if obj.kind == "other":
+            # decoded library objects (datetime, Fraction, UUID, set ...) have attributes of their own; none of those the parser
+            # reads (tag, value of a CBORTag are excluded: CBORSimpleValue has .value but no .tag)
+            if name in ("tag",):
+                it.raise_(AttributeError, name)
+            if it.branch(it.fresh_bool(f"other_has_{name}").e):
+                return VAbs("other", f"{obj.name}.{name}")
+            it.raise_(AttributeError, name)
+        it.raise_(AttributeError, f"'{obj.kind}' object has no attribute '{name}'")
+    if isinstance(obj, Lazy):
+        _oos(f"attribute {name}")
+    return it.getattr_(obj, name)
+
+
+def iterate(it, v, unpack):
+    v = resolve(it, v)
+    if isinstance(v, VPList):
+        if unpack is not None:
+            if not it.branch(v.n.e == unpack):
+                it.raise_(ValueError, "too many / not enough values to unpack")
+            return [v.elem(it, VInt(i)) for i in range(unpack)]
+        raise OutOfSubset("iteration over a sequence of symbolic length outside a loop the executor can summarise")
+    if isinstance(v, (VPMap, VPIter)):
+        raise OutOfSubset("iteration over a mapping of symbolic size outside a loop the executor can summarise")
+    if isinstance(v, VAbs):
+        if v.kind == "float":
+            it.raise_(TypeError, "'float' object is not iterable")
+        if it.branch(it.fresh_bool("other_not_iterable").e):
+            it.raise_(TypeError, "object is not iterable")
+        seq = VPList(it, v.name + "@iter", lambda it_, hint: VPlain(hint, TAG_KINDS), is_tuple=True)
+        return iterate(it, seq, unpack)
+    if isinstance(v, Lazy):
+        _oos("iterate")
+    if isinstance(v, VTag):
+        it.raise_(TypeError, "'CBORTag' object is not iterable")
+    return it.iterate(v, unpack=unpack)
+
+
+def len_(it, v):
+    from . import stubs_lib
+    v = resolve(it, v)
+    if isinstance(v, (VPList, VPMap)):
+        return v.n
+    if isinstance(v, VPIter):
+        return v.m.n
+    if isinstance(v, VAbs):
+        if v.kind == "float" or it.branch(it.fresh_bool("other_no_len").e):
+            it.raise_(TypeError, "object has no len()")
+        return it.fresh_int("len_other", 0, MAXLEN)
+    if isinstance(v, Lazy):
+        _oos("len")
+    if isinstance(v, VTag):
+        it.raise_(TypeError, "object of type 'CBORTag' has no len()")
+    return stubs_lib.HANDLERS["len"](it, None, [v], {})
+
+
+def to_int(it, v, base):
+    from . import stubs_lib
+    v = resolve(it, v)
+    if isinstance(v, VAbs):
+        if v.kind == "float":
+            k = it.choose(3, "int_of_float")
+            if k == 1:
+                it.raise_(ValueError, "cannot convert float NaN to integer")
+            if k == 2:
+                it.raise_(OverflowError, "cannot convert float infinity to integer")
+            return it.fresh_int("int_of_float")
+        it.raise_(TypeError, "int() argument must be a string, a bytes-like object or a real number")
+    if isinstance(v, Lazy):
+        it.raise_(TypeError, "int() argument must be a string, a bytes-like object or a real number")
+    if isinstance(v, VTag):
+        it.raise_(TypeError, "int() argument must be a string, a bytes-like object or a real number")
+    if isinstance(v, VBytes):
+        raise OutOfSubset("int(bytes)")
+    return stubs_lib.HANDLERS["int"](it, None, [v] + ([base] if base is not None else []), {})
+
+
+def to_dict(it, v):
+    v = resolve(it, v)
+    if isinstance(v, VPMap):
+        return VPMap(it, v.name + "@copy", v.key_fn, v.val_fn, frozen=False, shape=v.shape)
+    if isinstance(v, VPList):
+        if it.branch(it.fresh_bool("dict_of_seq_bad").e):
+            it.raise_(ValueError, "dictionary update sequence element has wrong length")
+        raise OutOfSubset("dict(sequence of symbolic length)")
+    it.raise_(TypeError, "object is not iterable")
+
+
+def dict_update(it, d, src):
+    _oos("dict.update with a decoded value")
+
+
+def enc(it, v):
+    """cbor2.dumps of a decoded value: some bytes (law A2 keeps nothing we need here); values that may contain library
+    objects cbor2 cannot encode (naive datetime ...) may raise CBOREncodeError."""
+    import cbor2
+    may_fail = True
+    if isinstance(v, VPlain):
+        ks = v.kinds
+        may_fail = any(k in ("other", "list", "tuple", "dict", "frozendict", "tag") for k in ks)
+    if may_fail and it.branch(it.fresh_bool("dumps_fails").e):
+        it.raise_(cbor2.CBOREncodeError, "cannot serialize")
+    b = it.fresh_bytes("reencoded")
+    it.assume(z3.And(z3.Length(b.e) >= 1, z3.Length(b.e) < MAXLEN))
+    return b
+
+
+class AnyDecodeFailure(Exception):
+    """Stands for whatever cbor2.loads raises on malformed input (CBORDecodeError, but also OverflowError, MemoryError,
+    TypeError, SystemError, re.error ... - see the comment in SuitObject.deserialize_cbor): only `except Exception`
+    (or broader) catches it, so a call site that catches less is reported as an escape."""
+
+
+def loads(it, data):
+    # cbor2.loads is a function of its argument: decoding the same byte term twice gives the same outcome
+    it.loads_cache = getattr(it, "loads_cache", {})
+    key = z3.simplify(data.e).sexpr()
+    if key in it.loads_cache:
+        r = it.loads_cache[key]
+        if r is None:
+            it.raise_(AnyDecodeFailure, "cbor2.loads failed")
+        return r
+    if it.branch(it.fresh_bool("loads_fails").e):
+        it.loads_cache[key] = None
+        it.raise_(AnyDecodeFailure, "cbor2.loads failed")
+    it.assumptions_used.add("cbor2.loads on arbitrary bytes: raises some Exception or returns a value of the Plain sum "
+                            "(int|bool|bytes|str|None|float|list|dict|CBORTag|other library object; tuple/frozendict under tags and as map keys)")
+    r = VPlain(it.fresh_name("decoded"), TOP_KINDS)
+    it.loads_cache[key] = r
+    return r
+
+
+def concretize(model, v):
+    if isinstance(v, VPlain):
+        if v.val is not None:
+            from .verify import concretize as conc
+            return {"__plain__": v.kinds[0], "value": conc(model, v.val)}
+        return {"__plain__": "|".join(v.kinds)}
+    if isinstance(v, VAbs):
+        return {"__plain__": v.kind}
+    if isinstance(v, VPList):
+        return {"__plain__": "tuple" if v.is_tuple else "list", "len": str(model.eval(v.n.e, model_completion=True))}
+    if isinstance(v, VPMap):
+        return {"__plain__": "frozendict" if v.frozen else "dict", "size": str(model.eval(v.n.e, model_completion=True))}
+    return "<opaque>"
